@@ -765,6 +765,24 @@ impl World {
                     self.register_fresh("pke-nonce", &n, what);
                     self.check_generator_advanced(e, &n, what);
                 }
+                // C16 "even for identical keys and plaintexts": the DEM used by the PKE layer,
+                // called twice with the same key and this plaintext, must not repeat itself
+                if self.wants(Class::Fresh) {
+                    use cosmian_cover_crypt::traits::AE;
+                    self.stats.check("dem-same-key-same-plaintext");
+                    let mut kb = [0u8; 32];
+                    kb[..8].copy_from_slice(&salt.to_le_bytes());
+                    if let Ok(key) = SymmetricKey::<32>::try_from_bytes(kb) {
+                        let cc = &self.encryptors[e].cc;
+                        let c1 = <Aes256Gcm as AE<32>>::encrypt(&mut *cc.rng(), &key, &ptx);
+                        let c2 = <Aes256Gcm as AE<32>>::encrypt(&mut *cc.rng(), &key, &ptx);
+                        if let (Ok(c1), Ok(c2)) = (c1, c2) {
+                            if c1 == c2 || (c1.len() >= 12 && c1[..12] == c2[..12]) {
+                                self.fail(Class::Fresh, "dem-encrypt/same-key-same-plaintext-repeats", format!("plaintext of {} bytes", ptx.len()));
+                            }
+                        }
+                    }
+                }
             }
             if let EncKind::Header { .. } = kind {
                 if let Ok(h) = wire::parse_header(&bytes) {
